@@ -1,6 +1,8 @@
 package props
 
 import (
+	"go/types"
+	"golang.org/x/tools/go/ssa"
 	"sort"
 	"strings"
 
@@ -257,6 +259,43 @@ func C13scan(p *load.Program, run *report.Run) {
 func C14seen(p *load.Program, run *report.Run) {
 	run.Rule("checked-table-access", "outside the methods of circuit.Seen (which return an error for an index past the end), a Seen table is indexed only by the variable of a loop bounded by len() of, or ranging over, that table; no slice expression is applied to it")
 	run.Rule("single-assignment", "Seen.Set returns an error for an element that is already set, before it marks it: every wire of a parsed circuit is assigned once, by the inputs or by exactly one gate")
+	if t, err := p.Type("circuit", "Seen"); err == nil {
+		if _, isSlice := t.Underlying().(*types.Slice); !isSlice {
+			// another representation (a bit set in a struct): what the methods do is decided by
+			// seen-table-contract; structurally, only the type's own methods and constructor touch its fields
+			bad := 0
+			for _, fn := range p.AllFunctions() {
+				if fn.Pkg == nil || !load.InModule(fn) || fn.Blocks == nil || strings.HasSuffix(p.Fset.Position(fn.Pos()).Filename, "_test.go") {
+					continue
+				}
+				own := false
+				if r := fn.Signature.Recv(); r != nil && strings.HasSuffix(strings.TrimPrefix(r.Type().String(), "*"), "/circuit.Seen") {
+					own = true
+				}
+				if res := fn.Signature.Results(); res.Len() == 1 && strings.HasSuffix(strings.TrimPrefix(res.At(0).Type().String(), "*"), "/circuit.Seen") {
+					own = true // the constructor
+				}
+				for _, b := range fn.Blocks {
+					for _, ins := range b.Instrs {
+						fa, ok := ins.(*ssa.FieldAddr)
+						if !ok || !strings.HasSuffix(strings.TrimPrefix(fa.X.Type().String(), "*"), "/circuit.Seen") {
+							continue
+						}
+						run.Count("checked-table-accesses", 1)
+						if !own {
+							bad++
+							run.Violate("checked-table-access", strings.ReplaceAll(fn.RelString(nil), load.Module+"/", "")+"/field", p.Rel(ins.Pos()), "the representation of the seen-wire table is reached outside its methods: the range and single-assignment checks of Get and Set are bypassed", nil)
+						}
+					}
+				}
+			}
+			if bad == 0 {
+				run.OK("checked-table-access", "circuit.Seen", "", "the table's fields are touched by its methods and constructor only")
+			}
+			run.Floor("checked-table-accesses", 2)
+			return
+		}
+	}
 	lints.CheckedTable(p, run, "circuit", "Seen")
 	run.Floor("checked-table-setters", 1)
 	run.Floor("checked-table-method-calls", 3)
